@@ -454,6 +454,133 @@ type extractCtx struct {
 	dir    string                  // encode | decode
 	locals map[types.Object]string // range / element variables -> field path
 	depth  int
+	// helper contexts (a private function that is handed the buffer)
+	retPath  string // decode helpers: the field whose storage must be returned
+	returned bool
+}
+
+// helperCtx recognises a call of a declared function (not a buffer method, not a nested
+// encode/decode) that is handed this codec's buffer, and prepares the context in which its
+// body is read as part of the message: the buffer parameter is the buffer, every other
+// parameter must be bound to a field of the message (or be the receiver of the helper).
+func (c *extractCtx) helperCtx(call *ast.CallExpr) (*extractCtx, bool, error) {
+	cf := callee(c.x.info, call)
+	if cf == nil || c.x.isBufMethod(cf) {
+		return nil, false, nil
+	}
+	hf := c.x.l.FuncOf(cf)
+	if hf == nil || hf.Decl.Body == nil || hf.Pkg.TypesInfo != c.x.info {
+		return nil, false, nil
+	}
+	bufIdx := -1
+	for i, a := range call.Args {
+		if objOf(c.x.info, a) == c.buf && c.buf != nil {
+			bufIdx = i
+		}
+	}
+	if bufIdx < 0 {
+		return nil, false, nil
+	}
+	if c.depth > 6 {
+		return nil, false, cerr(call.Pos(), "%s: helper nesting too deep", c.fi.Key)
+	}
+	hc := &extractCtx{x: c.x, fi: hf, prefix: c.prefix, dir: c.dir, locals: map[types.Object]string{}, depth: c.depth + 1}
+	// receiver of a helper method: a field path of the message
+	if hf.Decl.Recv != nil && len(hf.Decl.Recv.List) == 1 && len(hf.Decl.Recv.List[0].Names) == 1 {
+		sel, ok := call.Fun.(*ast.SelectorExpr)
+		if !ok {
+			return nil, false, nil
+		}
+		p, _, ok := c.fieldPath(sel.X)
+		if !ok {
+			return nil, false, cerr(call.Pos(), "%s: helper %s is called on %s, which is not part of the message", c.fi.Key, hf.Key, c.x.l.str(sel.X))
+		}
+		hc.locals[c.x.info.Defs[hf.Decl.Recv.List[0].Names[0]]] = p
+	}
+	idx := 0
+	for _, fld := range hf.Decl.Type.Params.List {
+		for _, nm := range fld.Names {
+			if idx >= len(call.Args) {
+				return nil, false, cerr(call.Pos(), "%s: helper %s: argument count", c.fi.Key, hf.Key)
+			}
+			obj := c.x.info.Defs[nm]
+			if idx == bufIdx {
+				hc.buf = obj
+			} else {
+				p, _, ok := c.fieldPath(call.Args[idx])
+				if !ok {
+					return nil, false, cerr(call.Pos(), "%s: helper %s is given %s, which is not a field of the message", c.fi.Key, hf.Key, c.x.l.str(call.Args[idx]))
+				}
+				hc.locals[obj] = p
+			}
+			idx++
+		}
+		if len(fld.Names) == 0 {
+			idx++
+		}
+	}
+	if hc.buf == nil {
+		return nil, false, nil
+	}
+	return hc, true, nil
+}
+
+// decodeLiteral reads "*r = T{F: [conv](b.ReadX()), ...}" as the field reads it performs, in
+// the (lexical = evaluation) order of the elements.
+func (c *extractCtx) decodeLiteral(lhs ast.Expr, cl *ast.CompositeLit) ([]LItem, error) {
+	base, bt, ok := c.fieldPath(lhs)
+	if !ok {
+		return nil, cerr(lhs.Pos(), "%s: literal assigned to %s, which is not part of the message", c.fi.Key, c.x.l.str(lhs))
+	}
+	if p, isPtr := bt.(*types.Pointer); isPtr {
+		bt = p.Elem()
+	}
+	stt, isStruct := bt.Underlying().(*types.Struct)
+	if !isStruct || !types.Identical(c.x.info.TypeOf(cl), bt) {
+		return nil, cerr(cl.Pos(), "%s: unsupported literal assignment", c.fi.Key)
+	}
+	var out []LItem
+	seen := map[string]bool{}
+	for i, el := range cl.Elts {
+		var name string
+		var val ast.Expr
+		if kv, isKV := el.(*ast.KeyValueExpr); isKV {
+			name, val = c.x.l.str(kv.Key), kv.Value
+		} else if i < stt.NumFields() {
+			name, val = stt.Field(i).Name(), el
+		}
+		var fld *types.Var
+		for j := 0; j < stt.NumFields(); j++ {
+			if stt.Field(j).Name() == name {
+				fld = stt.Field(j)
+			}
+		}
+		if fld == nil || seen[name] {
+			return nil, cerr(el.Pos(), "%s: unsupported literal element", c.fi.Key)
+		}
+		seen[name] = true
+		inner, _, err := c.x.stripConvMask(val)
+		if err != nil {
+			return nil, err
+		}
+		call, isCall := unparen(inner).(*ast.CallExpr)
+		if !isCall {
+			return nil, cerr(el.Pos(), "%s: field %s of the literal is not read from the buffer", c.fi.Key, name)
+		}
+		cf := callee(c.x.info, call)
+		if !c.x.isBufMethod(cf) || objOfSelBase(c.x.info, call.Fun) != c.buf {
+			return nil, cerr(el.Pos(), "%s: field %s of the literal is not read from the buffer", c.fi.Key, name)
+		}
+		prim, err := c.x.readPrim(cf)
+		if err != nil {
+			return nil, err
+		}
+		bits, signed := typeBits(fld.Type())
+		out = append(out, LItem{Kind: primKind(prim), Field: joinPath(base, name), FType: types.TypeString(fld.Type(), func(p *types.Package) string { return p.Name() }), FBits: bits, Signed: signed, Conv: c.x.l.str(val), Pos: el.Pos()})
+	}
+	// fields the literal leaves out are zeroed: fine for "no carry-over", but the layout must
+	// still name every field the encoder writes (checked by the encode/decode comparison).
+	return out, nil
 }
 
 // Layout extracts the layout of t's encode or decode method.
@@ -689,6 +816,17 @@ func (c *extractCtx) encodeStmts(stmts []ast.Stmt) ([]LItem, error) {
 				continue
 			}
 			cf := callee(c.x.info, call)
+			if hc, ok, err := c.helperCtx(call); err != nil {
+				return nil, err
+			} else if ok {
+				// a private helper that is handed the buffer: its writes are this message's writes
+				items, err := hc.encodeStmts(hc.fi.Decl.Body.List)
+				if err != nil {
+					return nil, err
+				}
+				out = append(out, items...)
+				continue
+			}
 			if !c.x.isBufMethod(cf) || objOfSelBase(c.x.info, call.Fun) != c.buf {
 				return nil, cerr(s.Pos(), "%s: call %s is neither a buffer write nor a nested encode", c.fi.Key, c.x.l.str(call))
 			}
@@ -888,9 +1026,28 @@ func (c *extractCtx) decodeStmts(stmts []ast.Stmt) ([]LItem, error) {
 				return nil, err
 			}
 			if !isNested {
+				if hc, ok, err := c.helperCtx(call); err != nil {
+					return nil, err
+				} else if ok {
+					hitems, err := hc.decodeStmts(hc.fi.Decl.Body.List)
+					if err != nil {
+						return nil, err
+					}
+					out = append(out, hitems...)
+					continue
+				}
 				return nil, cerr(s.Pos(), "%s: call %s discards what it reads or is not a nested decode", c.fi.Key, c.x.l.str(call))
 			}
 			out = append(out, items...)
+		case *ast.ReturnStmt:
+			// only at the end of a helper: return the storage parameter
+			if c.retPath == "" || i != len(stmts)-1 || len(st.Results) != 1 {
+				return nil, cerr(s.Pos(), "%s: unsupported return in decoder", c.fi.Key)
+			}
+			if p, _, ok := c.fieldPath(st.Results[0]); !ok || p != c.retPath {
+				return nil, cerr(s.Pos(), "%s: returns %s, not the storage of %s", c.fi.Key, c.x.l.str(st.Results[0]), c.retPath)
+			}
+			c.returned = true
 		case *ast.DeclStmt:
 			// "var q QID" inside list loops is handled by the loop code.
 			return nil, cerr(s.Pos(), "%s: unsupported declaration in decoder", c.fi.Key)
@@ -899,6 +1056,36 @@ func (c *extractCtx) decodeStmts(stmts []ast.Stmt) ([]LItem, error) {
 				return nil, cerr(s.Pos(), "%s: unsupported multi-assignment", c.fi.Key)
 			}
 			rhs := unparen(st.Rhs[0])
+			// *r = T{F: b.ReadX(), ...}: the fields are read in the order the elements are written
+			if cl, ok := rhs.(*ast.CompositeLit); ok && st.Tok == token.ASSIGN {
+				items, err := c.decodeLiteral(st.Lhs[0], cl)
+				if err != nil {
+					return nil, err
+				}
+				out = append(out, items...)
+				continue
+			}
+			// F = helper(b, F): a private helper that is handed the buffer and the storage
+			if hcall, ok := rhs.(*ast.CallExpr); ok && st.Tok == token.ASSIGN {
+				if hc, ok, err := c.helperCtx(hcall); err != nil {
+					return nil, err
+				} else if ok {
+					lp, _, lok := c.fieldPath(st.Lhs[0])
+					if !lok {
+						return nil, cerr(s.Pos(), "%s: result of %s is not stored in a field of the message", c.fi.Key, c.x.l.str(hcall.Fun))
+					}
+					hc.retPath = lp
+					items, err := hc.decodeStmts(hc.fi.Decl.Body.List)
+					if err != nil {
+						return nil, err
+					}
+					if !hc.returned {
+						return nil, cerr(s.Pos(), "%s: helper %s does not return the storage it filled", c.fi.Key, c.x.l.str(hcall.Fun))
+					}
+					out = append(out, items...)
+					continue
+				}
+			}
 			// F = F[:0]
 			if sl, ok := rhs.(*ast.SliceExpr); ok && st.Tok == token.ASSIGN {
 				lp, _, lok := c.fieldPath(st.Lhs[0])
@@ -1175,30 +1362,95 @@ func (c *extractCtx) decodeListBody(body []ast.Stmt) (LItem, error) {
 //	r.Count = uint32(payloadSize); r.payload = entriesBuf.data[:payloadSize]; b.Write32(r.Count)
 func (c *extractCtx) rreaddirEncode() ([]LItem, error) {
 	info := c.x.info
+	res := newResolver(c.x.l, info, c.fi.Decl)
 	body := c.fi.Decl.Body.List
-	var entriesBuf, payloadSize types.Object
+	// A statement that only names a pure expression (limit := int(r.Count)) is transparent: the
+	// resolver renders its uses as the expression.  It is accepted where nothing between the
+	// definition and the use can change the expression's value: directly before its use, or
+	// before the loop when the loop assigns none of its variables.
+	isAlias := func(s ast.Stmt) (types.Object, ast.Expr) {
+		as, ok := s.(*ast.AssignStmt)
+		if !ok || as.Tok != token.DEFINE || len(as.Lhs) != 1 || len(as.Rhs) != 1 {
+			return nil, nil
+		}
+		obj := info.Defs[as.Lhs[0].(*ast.Ident)]
+		if d, ok := res.defs[obj]; ok && d != nil && pureExpr(d) {
+			if _, isC := constInt(info, d); !isC {
+				return obj, d
+			}
+		}
+		return nil, nil
+	}
+	var entriesBuf, acc types.Object
 	var loop *ast.RangeStmt
 	var tail []ast.Stmt
+	var preAliases []ast.Expr
+	note := func(obj types.Object, init ast.Expr) error {
+		switch {
+		case types.Identical(obj.Type(), c.x.bufType) && entriesBuf == nil:
+			if init != nil {
+				if cl, ok := unparen(init).(*ast.CompositeLit); !ok || len(cl.Elts) != 0 {
+					return cerr(init.Pos(), "%s: the scratch buffer does not start empty", c.fi.Key)
+				}
+			}
+			entriesBuf = obj
+		case acc == nil:
+			if b, ok := obj.Type().Underlying().(*types.Basic); !ok || b.Kind() != types.Int {
+				return cerr(obj.Pos(), "%s: unsupported local %s before the entry loop", c.fi.Key, obj.Name())
+			}
+			if init != nil {
+				if v, ok := constInt(info, init); !ok || v != 0 {
+					return cerr(init.Pos(), "%s: the size accumulator does not start at 0", c.fi.Key)
+				}
+			}
+			acc = obj
+		default:
+			return cerr(obj.Pos(), "%s: unsupported local %s before the entry loop", c.fi.Key, obj.Name())
+		}
+		return nil
+	}
 	for i, s := range body {
 		if rs, ok := s.(*ast.RangeStmt); ok {
 			loop = rs
 			tail = body[i+1:]
 			break
 		}
-		as, ok := s.(*ast.AssignStmt)
-		if !ok || as.Tok != token.DEFINE || len(as.Lhs) != 1 {
+		if _, d := isAlias(s); d != nil {
+			preAliases = append(preAliases, d)
+			continue
+		}
+		switch st := s.(type) {
+		case *ast.AssignStmt:
+			if st.Tok != token.DEFINE || len(st.Lhs) != len(st.Rhs) {
+				return nil, cerr(s.Pos(), "%s: unsupported statement before the entry loop", c.fi.Key)
+			}
+			for j, l := range st.Lhs {
+				if err := note(info.Defs[l.(*ast.Ident)], st.Rhs[j]); err != nil {
+					return nil, err
+				}
+			}
+		case *ast.DeclStmt:
+			gd, ok := st.Decl.(*ast.GenDecl)
+			if !ok || gd.Tok != token.VAR {
+				return nil, cerr(s.Pos(), "%s: unsupported statement before the entry loop", c.fi.Key)
+			}
+			for _, sp := range gd.Specs {
+				vs := sp.(*ast.ValueSpec)
+				for j, nm := range vs.Names {
+					var init ast.Expr
+					if j < len(vs.Values) {
+						init = vs.Values[j]
+					}
+					if err := note(info.Defs[nm], init); err != nil {
+						return nil, err
+					}
+				}
+			}
+		default:
 			return nil, cerr(s.Pos(), "%s: unsupported statement before the entry loop", c.fi.Key)
 		}
-		obj := info.Defs[as.Lhs[0].(*ast.Ident)]
-		if cl, ok := as.Rhs[0].(*ast.CompositeLit); ok && len(cl.Elts) == 0 && types.Identical(info.TypeOf(cl), c.x.bufType) {
-			entriesBuf = obj
-		} else if v, ok := constInt(info, as.Rhs[0]); ok && v == 0 {
-			payloadSize = obj
-		} else {
-			return nil, cerr(s.Pos(), "%s: unsupported initialisation", c.fi.Key)
-		}
 	}
-	if loop == nil || entriesBuf == nil || payloadSize == nil {
+	if loop == nil || entriesBuf == nil || acc == nil {
 		return nil, cerr(c.fi.Decl.Pos(), "%s: entry loop idiom not found", c.fi.Key)
 	}
 	if p, _, ok := c.fieldPath(loop.X); !ok || !strings.HasSuffix(p, "Entries") {
@@ -1207,19 +1459,78 @@ func (c *extractCtx) rreaddirEncode() ([]LItem, error) {
 	if loop.Value == nil {
 		return nil, cerr(loop.Pos(), "%s: loop has no element variable", c.fi.Key)
 	}
-	dvar := info.Defs[loop.Value.(*ast.Ident)]
-	lenOfBuf := func(e ast.Expr) bool {
-		call, ok := unparen(e).(*ast.CallExpr)
-		if !ok || len(call.Args) != 1 {
-			return false
+	// aliases defined before the loop must not be invalidated inside it
+	assignedInLoop := map[types.Object]bool{}
+	ast.Inspect(loop.Body, func(n ast.Node) bool {
+		switch v := n.(type) {
+		case *ast.AssignStmt:
+			for _, l := range v.Lhs {
+				for _, o := range objsIn(info, l) {
+					assignedInLoop[o] = true
+				}
+				if o := objOf(info, l); o != nil {
+					assignedInLoop[o] = true
+				}
+			}
+		case *ast.UnaryExpr:
+			if v.Op == token.AND {
+				for _, o := range objsIn(info, v.X) {
+					assignedInLoop[o] = true
+				}
+			}
 		}
-		if id, ok := call.Fun.(*ast.Ident); !ok || id.Name != "len" {
-			return false
+		return true
+	})
+	for _, d := range preAliases {
+		for _, o := range objsIn(info, d) {
+			if assignedInLoop[o] {
+				return nil, cerr(d.Pos(), "%s: %s is computed before the loop but changes inside it", c.fi.Key, c.x.l.str(d))
+			}
 		}
-		sel, ok := unparen(call.Args[0]).(*ast.SelectorExpr)
-		return ok && sel.Sel.Name == "data" && objOf(info, sel.X) == entriesBuf
 	}
-	lb := loop.Body.List
+	dvar := info.Defs[loop.Value.(*ast.Ident)]
+	bufName := res.nameOf(entriesBuf)
+	lenBuf := "len(" + bufName + ".data)"
+	// loop body without adjacent alias definitions
+	var lb []ast.Stmt
+	for i, s := range loop.Body.List {
+		if obj, _ := isAlias(s); obj != nil {
+			// must be used by the very next non-alias statement only after no intervening effects:
+			// aliases are consecutive with their use because everything between is an alias too
+			if i+1 >= len(loop.Body.List) {
+				return nil, cerr(s.Pos(), "%s: unused local in the entry loop", c.fi.Key)
+			}
+			continue
+		}
+		lb = append(lb, s)
+	}
+	// an alias may only be used in the statement(s) that follow it without an intervening effect
+	for i, s := range loop.Body.List {
+		obj, _ := isAlias(s)
+		if obj == nil {
+			continue
+		}
+		effects := 0
+		for _, later := range loop.Body.List[i+1:] {
+			uses := false
+			ast.Inspect(later, func(n ast.Node) bool {
+				if id, ok := n.(*ast.Ident); ok && info.Uses[id] == obj {
+					uses = true
+				}
+				return true
+			})
+			if uses && effects > 0 {
+				return nil, cerr(later.Pos(), "%s: %s is used after the buffer may have changed", c.fi.Key, obj.Name())
+			}
+			if o2, _ := isAlias(later); o2 == nil {
+				if _, isIf := later.(*ast.IfStmt); !isIf {
+					if as, isAs := later.(*ast.AssignStmt); !isAs || objOf(info, as.Lhs[0]) != acc {
+						effects++
+					}
+				}
+			}
+		}
+	}
 	if len(lb) != 3 {
 		return nil, cerr(loop.Pos(), "%s: entry loop body has %d statements, want encode / limit test / size update", c.fi.Key, len(lb))
 	}
@@ -1241,11 +1552,12 @@ func (c *extractCtx) rreaddirEncode() ([]LItem, error) {
 	// 2. if len(entriesBuf.data) > int(r.Count) { break }
 	ifs, ok := lb[1].(*ast.IfStmt)
 	okLim := false
-	if ok && ifs.Else == nil && len(ifs.Body.List) == 1 {
-		if br, ok := ifs.Body.List[0].(*ast.BranchStmt); ok && br.Tok == token.BREAK {
-			if be, ok := ifs.Cond.(*ast.BinaryExpr); ok && be.Op == token.GTR && lenOfBuf(be.X) {
-				inner, _, _ := c.x.stripConvMask(be.Y)
-				if p, _, ok := c.fieldPath(inner); ok && strings.HasSuffix(p, "Count") {
+	if ok && ifs.Else == nil && ifs.Init == nil && len(ifs.Body.List) == 1 {
+		if br, ok := ifs.Body.List[0].(*ast.BranchStmt); ok && br.Tok == token.BREAK && br.Label == nil {
+			key, pol := atomOf(res, info, nil, ifs.Cond)
+			if i := strings.Index(key, " > "); i > 0 && pol {
+				lhs, rhs := key[:i], key[i+3:]
+				if nospace(lhs) == nospace(lenBuf) && strings.HasPrefix(nospace(rhs), "int(") && strings.HasSuffix(nospace(rhs), ".Count)") {
 					okLim = true
 				}
 			}
@@ -1256,52 +1568,66 @@ func (c *extractCtx) rreaddirEncode() ([]LItem, error) {
 	}
 	// 3. payloadSize = len(entriesBuf.data)
 	as, ok := lb[2].(*ast.AssignStmt)
-	if !ok || as.Tok != token.ASSIGN || len(as.Lhs) != 1 || objOf(info, as.Lhs[0]) != payloadSize || !lenOfBuf(as.Rhs[0]) {
+	if !ok || as.Tok != token.ASSIGN || len(as.Lhs) != 1 || objOf(info, as.Lhs[0]) != acc || nospace(res.str(as.Rhs[0])) != nospace(lenBuf) {
 		return nil, cerr(lb[2].Pos(), "%s: third loop statement is not 'payloadSize = len(entriesBuf.data)'", c.fi.Key)
 	}
 	// tail: r.Count = uint32(payloadSize); r.payload = entriesBuf.data[:payloadSize]; b.Write32(r.Count)
-	if len(tail) != 3 {
-		return nil, cerr(loop.End(), "%s: unexpected statements after the entry loop", c.fi.Key)
+	accName := res.nameOf(acc)
+	var setCount, setPayload, write bool
+	var writePos token.Pos
+	for _, s := range tail {
+		switch st := s.(type) {
+		case *ast.AssignStmt:
+			if len(st.Lhs) != 1 || len(st.Rhs) != 1 || st.Tok != token.ASSIGN || write {
+				return nil, cerr(s.Pos(), "%s: unexpected statements after the entry loop", c.fi.Key)
+			}
+			p, _, ok := c.fieldPath(st.Lhs[0])
+			switch {
+			case ok && strings.HasSuffix(p, "Count"):
+				if nospace(res.str(st.Rhs[0])) != "uint32("+accName+")" {
+					return nil, cerr(s.Pos(), "%s: Count is not set to the payload size", c.fi.Key)
+				}
+				setCount = true
+			case ok && strings.HasSuffix(p, "payload"):
+				sl, ok := unparen(st.Rhs[0]).(*ast.SliceExpr)
+				if !ok || sl.Low != nil || sl.High == nil || objOf(info, sl.High) != acc {
+					return nil, cerr(s.Pos(), "%s: payload is not entriesBuf.data[:payloadSize]", c.fi.Key)
+				}
+				if sel, ok := unparen(sl.X).(*ast.SelectorExpr); !ok || sel.Sel.Name != "data" || objOf(info, sel.X) != entriesBuf {
+					return nil, cerr(s.Pos(), "%s: payload is not a prefix of the encoded entries", c.fi.Key)
+				}
+				setPayload = true
+			default:
+				return nil, cerr(s.Pos(), "%s: unexpected statements after the entry loop", c.fi.Key)
+			}
+		case *ast.ExprStmt:
+			call, ok := st.X.(*ast.CallExpr)
+			if !ok || len(call.Args) != 1 || write {
+				return nil, cerr(s.Pos(), "%s: count is not written", c.fi.Key)
+			}
+			prim, err := c.x.writePrim(callee(info, call))
+			if err != nil || prim.Kind != "u32" || objOfSelBase(info, call.Fun) != c.buf {
+				return nil, cerr(s.Pos(), "%s: count is not written as u32 to the message buffer", c.fi.Key)
+			}
+			p, _, isField := c.fieldPath(call.Args[0])
+			okVal := isField && strings.HasSuffix(p, "Count") && setCount || nospace(res.str(call.Args[0])) == "uint32("+accName+")"
+			if !okVal {
+				return nil, cerr(s.Pos(), "%s: the value written is not Count", c.fi.Key)
+			}
+			write, writePos = true, s.Pos()
+		default:
+			return nil, cerr(s.Pos(), "%s: unexpected statements after the entry loop", c.fi.Key)
+		}
 	}
-	t0, ok0 := tail[0].(*ast.AssignStmt)
-	t1, ok1 := tail[1].(*ast.AssignStmt)
-	t2, ok2 := tail[2].(*ast.ExprStmt)
-	if !ok0 || !ok1 || !ok2 {
-		return nil, cerr(loop.End(), "%s: unexpected statements after the entry loop", c.fi.Key)
-	}
-	if p, _, ok := c.fieldPath(t0.Lhs[0]); !ok || !strings.HasSuffix(p, "Count") {
-		return nil, cerr(t0.Pos(), "%s: Count is not set to the payload size", c.fi.Key)
-	}
-	if in, _, _ := c.x.stripConvMask(t0.Rhs[0]); objOf(info, in) != payloadSize {
-		return nil, cerr(t0.Pos(), "%s: Count is not set to the payload size", c.fi.Key)
-	}
-	if p, _, ok := c.fieldPath(t1.Lhs[0]); !ok || !strings.HasSuffix(p, "payload") {
-		return nil, cerr(t1.Pos(), "%s: payload is not set", c.fi.Key)
-	}
-	sl, ok := unparen(t1.Rhs[0]).(*ast.SliceExpr)
-	if !ok || sl.Low != nil || objOf(info, sl.High) != payloadSize {
-		return nil, cerr(t1.Pos(), "%s: payload is not entriesBuf.data[:payloadSize]", c.fi.Key)
-	}
-	if sel, ok := unparen(sl.X).(*ast.SelectorExpr); !ok || sel.Sel.Name != "data" || objOf(info, sel.X) != entriesBuf {
-		return nil, cerr(t1.Pos(), "%s: payload is not a prefix of the encoded entries", c.fi.Key)
-	}
-	call, ok := t2.X.(*ast.CallExpr)
-	if !ok || len(call.Args) != 1 {
-		return nil, cerr(t2.Pos(), "%s: count is not written", c.fi.Key)
-	}
-	prim, err := c.x.writePrim(callee(info, call))
-	if err != nil || prim.Kind != "u32" || objOfSelBase(info, call.Fun) != c.buf {
-		return nil, cerr(t2.Pos(), "%s: count is not written as u32 to the message buffer", c.fi.Key)
-	}
-	if p, _, ok := c.fieldPath(call.Args[0]); !ok || !strings.HasSuffix(p, "Count") {
-		return nil, cerr(t2.Pos(), "%s: the value written is not Count", c.fi.Key)
+	if !setCount || !setPayload || !write {
+		return nil, cerr(loop.End(), "%s: after the entry loop Count, payload and the written count must all be set (Count=%v payload=%v written=%v)", c.fi.Key, setCount, setPayload, write)
 	}
 	dirent := c.x.l.namedType("p9", "Dirent")
 	elem, err := c.x.layout(dirent, "encode", "Entries[].", c.depth+1)
 	if err != nil {
 		return nil, err
 	}
-	return []LItem{{Kind: "count32", Field: "payload", Pos: t2.Pos()}, {Kind: "dirents", Field: "Entries", Elem: elem, Pos: loop.Pos()}}, nil
+	return []LItem{{Kind: "count32", Field: "payload", Pos: writePos}, {Kind: "dirents", Field: "Entries", Elem: elem, Pos: loop.Pos()}}, nil
 }
 
 // rreaddirDecode verifies:
